@@ -151,7 +151,7 @@ def life_bodies(which):
 # ---------------------------------------------------------------------------
 
 class RealWorld:
-    def __init__(self, specs, conds=(), fvs=()):
+    def __init__(self, specs, conds=(), fvs=(), flags=(), cond_init=None):
         from sc3.base.main import main
         from sc3.base import stream as stm
         from sc3.base.clock import SystemClock
@@ -164,7 +164,12 @@ class RealWorld:
         self.log = []           # [routine, action index, outcome] in bodies
         self.problems = []      # invariant violations seen inside bodies
         self.awake = []         # [routine, outcome] of every clock wake-up
-        self.conds = {c: stm.Condition() for c in conds}
+        self.flags = {g: [False] for g in flags}
+        self.conds = {}
+        for c in conds:
+            t = (cond_init or {}).get(c)
+            self.conds[c] = stm.Condition() if t is None else \
+                stm.Condition(self.testval(t))
         self.fvs = {f: stm.FlowVar() for f in fvs}
         self.routines = {}
         self.names = {}
@@ -175,6 +180,13 @@ class RealWorld:
             r.__awake__ = self._spy(n, r)
 
     # -- helpers ---------------------------------------------------------------
+    def testval(self, t):
+        """bool, or ['flag', g] -> a callable predicate reading flag g."""
+        if isinstance(t, list) and t[0] == 'flag':
+            cell = self.flags[t[1]]
+            return lambda: cell[0]
+        return t
+
     def plain(self, v):
         if v is None or isinstance(v, (bool, int, float, str)):
             return v
@@ -319,7 +331,7 @@ class RealWorld:
             elif act[3] == 'p':
                 raise e
         elif a == 'set':
-            self.conds[act[1]].test = act[2]
+            self.conds[act[1]].test = self.testval(act[2])
         elif a == 'signal':
             self.conds[act[1]].signal()
         elif a == 'unhang':
@@ -353,7 +365,8 @@ class RealWorld:
                      '-' if tv is r._SENTINEL else ['v', self.plain(tv)],
                      self.plain(r._last_value), r.parent is None,
                      self.runs[n], getattr(r._clock, '__name__', '?')]
-        cs = {c: [bool(x._test), [self.ttname(t) for t in x._waiting_threads]]
+        cs = {c: [callable(x._test), bool(x.test),
+                  [self.ttname(t) for t in x._waiting_threads]]
               for c, x in self.conds.items()}
         fs = {f: [self.plain(x._value),
                   [self.ttname(t) for t in x.condition._waiting_threads]]
@@ -602,6 +615,31 @@ COND_CONFIGS = {
                'ops': [['play', 'w0'], ['stop', 'w0'], ['reset', 'w0'],
                        ['set', 'c0', True], ['set', 'c1', True],
                        ['signal', 'c0'], ['signal', 'c1']]},
+    # Condition created with a CALLABLE test reading a flag: signal() must
+    # evaluate it (a callable is always truthy as an object)
+    'callinit': {'routines': {'w0': G([['wait', 'c0'], YX, ['wait', 'c0'],
+                                       YX]),
+                              'w1': G([Y5, ['wait', 'c0'], YX])},
+                 'conds': ['c0'], 'flags': ['g0'],
+                 'cond_init': {'c0': ['flag', 'g0']},
+                 'ops': [['play', 'w0'], ['play', 'w1'],
+                         ['flag', 'g0', True], ['flag', 'g0', False],
+                         ['signal', 'c0'], ['unhang', 'c0']]},
+    # a callable assigned later with cond.test = ..., mixed with bools
+    'callset': {'routines': {'w0': G([['wait', 'c0'], YX, ['wait', 'c0'],
+                                      YX])},
+                'conds': ['c0'], 'flags': ['g0'],
+                'ops': [['play', 'w0'], ['set', 'c0', ['flag', 'g0']],
+                        ['set', 'c0', False], ['set', 'c0', True],
+                        ['flag', 'g0', True], ['flag', 'g0', False],
+                        ['signal', 'c0']]},
+    # signalling the internal condition of a flow variable (its test is the
+    # callable "value is bound")
+    'flowsig': {'routines': {'w0': G([['fvget', 'f0'], EC]),
+                             'w1': G([Y5, ['fvget', 'f0'], EC])},
+                'fvs': ['f0'],
+                'ops': [['play', 'w0'], ['play', 'w1'], ['fvsignal', 'f0'],
+                        ['fvset', 'f0', 7]]},
     # a condition and a flow variable together
     'mixed': {'routines': {'w0': G([['wait', 'c0'], ['fvget', 'f0'], EC]),
                            'w1': G([['fvget', 'f0'], ['wait', 'c0'], EC])},
@@ -617,9 +655,11 @@ class CondSys:
         cfg = COND_CONFIGS[params['config']]
         self.cfg = cfg
         self.w = RealWorld(cfg['routines'], cfg.get('conds', ()),
-                           cfg.get('fvs', ()))
+                           cfg.get('fvs', ()), cfg.get('flags', ()),
+                           cfg.get('cond_init'))
         self.ref = rr.RefWorld(cfg['routines'], cfg.get('conds', ()),
-                               cfg.get('fvs', ()))
+                               cfg.get('fvs', ()), cfg.get('flags', ()),
+                               cfg.get('cond_init'))
         self.resumed = 0
         self.last = None
         self.tainted = False
@@ -656,8 +696,16 @@ class CondSys:
                     ref.r[op[1]].call(name)
                     exp = rr.ret(None)
                 elif name == 'set':
-                    w.conds[op[1]].test = op[2]
+                    w.conds[op[1]].test = w.testval(op[2])
                     ref.set(op[1], op[2])
+                    exp = rr.ret(None)
+                elif name == 'flag':
+                    w.flags[op[1]][0] = op[2]
+                    ref.set_flag(op[1], op[2])
+                    exp = rr.ret(None)
+                elif name == 'fvsignal':
+                    w.fvs[op[1]].condition.signal()
+                    ref.fvsignal(op[1])
                     exp = rr.ret(None)
                 elif name == 'signal':
                     w.conds[op[1]].signal()
@@ -1093,9 +1141,11 @@ def main(ctx):
         'class, Routine.state of every routine, main.current_tt and the '
         'caller\'s logical time are compared with '
         'mc/oracles/routine_ref.py. cond: E2 BFS over play / test=True|False '
-        '/ signal / unhang / value=v / value=w / stop / reset / scheduler '
-        'step with 1-3 routines waiting on Condition / FlowVar (also '
-        'signalling from inside routines): every wake-up result equals the '
+        '/ test=callable reading a flag / flag flips / signal / unhang / '
+        'value=v / value=w / flowvar.condition.signal() / stop / reset / '
+        'scheduler step with 1-3 routines waiting on Condition (bool or '
+        'callable test) / FlowVar (also signalling from inside routines): '
+        'every wake-up result equals the '
         'reference, a wake-up that nobody owes must not run a body, an owed '
         'wake-up must be queued. rt (thorough): 31 programs with two waiters '
         'on different clocks and a signalling thread / routine on a third, '
